@@ -571,7 +571,11 @@ class Cell(Numbered_MCNP_Object):
             mat_num = 0
         self._tree["material"]["mat_number"].value = mat_num
         self._geometry._update_values()
-        self._tree.nodes["geometry"] = self.geometry.node
+        if (
+            HalfSpace._strip_parentheses(self._tree.nodes["geometry"])
+            is not self.geometry.node
+        ):
+            self._tree.nodes["geometry"] = self.geometry.node
         for input_class, (attr, _) in self._INPUTS_TO_PROPERTY.items():
             getattr(self, attr)._update_values()
 
